@@ -79,13 +79,20 @@ theorem invalid_typed (pm : PMsg) (h : msgWF pm = true) (hk : pm.known = true) :
 def SlotsOK (P : Profile) (c : Container) (slots : List (List Msg)) : Prop :=
   ∀ (i : Nat) (ms : List Msg), slots[i]? = some ms → ∀ m ∈ ms, MsgOK P m ∧ m.num = (c.slots.getD i default).msg
 
+/-- what `decodeHeader` accepts and `Encode` needs of a header: 12 or 14 bytes, the ".FIT" tag, a
+    supported protocol version -/
+def HdrLegal (h : Header) : Prop :=
+  (h.size = headerSizeNoCRC ∨ h.size = headerSizeCRC) ∧ h.dtype = fitTag ∧ h.proto < 256 ∧ h.proto / 16 ≤ protoMajorMax
+
 structure FileTyped (P : Profile) (f : FileSt) : Prop where
   fid : MsgOK P f.fileId ∧ f.fileId.num = mnFileId
-  creator : ∀ m, f.creator = some m → MsgOK P m
-  tscorr : ∀ m, f.tscorr = some m → MsgOK P m
+  creator : ∀ m, f.creator = some m → MsgOK P m ∧ m.num = mnFileCreator
+  tscorr : ∀ m, f.tscorr = some m → MsgOK P m ∧ m.num = mnTimestampCorrelation
   slots : ∀ i, f.cidx = some i → SlotsOK P (P.containers.getD i default) f.slots
   /-- the attached container is the one the file type in file_id selects -/
   ctype : ∀ i, f.cidx = some i → P.initAns (fileTypeOf f) = .container i
+  /-- the header is one `decodeHeader` accepted -/
+  hdr : HdrLegal f.hdr
 
 /-- the file_id struct has at least one field (its first field is the file type) -/
 def fidLayoutB (P : Profile) : Bool :=
@@ -159,7 +166,7 @@ theorem add_typed (P : Profile) (hx : xokB P = true) (hfl : fidLayoutB P = true)
     subst h1
     obtain ⟨mv0, mrest0, hmv0⟩ := fid_vals_ne P hfl m hm hnum
     obtain ⟨t0, trest0, hfv0⟩ := fid_vals_ne P hfl f.fileId hf.fid.1 hf.fid.2
-    refine ⟨?_, hf.creator, hf.tscorr, hf.slots, ?_⟩
+    refine ⟨?_, hf.creator, hf.tscorr, hf.slots, ?_, hf.hdr⟩
     rotate_left
     · intro i hi
       simp only at hi
@@ -197,24 +204,26 @@ theorem add_typed (P : Profile) (hx : xokB P = true) (hfl : fidLayoutB P = true)
         exact hv.set 0 k0 t hl (hv0.2 0 k0 t hl ht)
     · exact ⟨hm, hnum⟩
   · split at h
-    · injection h with h; injection h with h1 _; subst h1
-      exact ⟨hf.fid, fun x hx => by cases hx; exact hm, hf.tscorr, hf.slots, hf.ctype⟩
+    · rename_i hnc
+      injection h with h; injection h with h1 _; subst h1
+      exact ⟨hf.fid, fun x hx => by cases hx; exact ⟨hm, hnc⟩, hf.tscorr, hf.slots, hf.ctype, hf.hdr⟩
     · split at h
-      · injection h with h; injection h with h1 _; subst h1
-        exact ⟨hf.fid, hf.creator, fun x hx => by cases hx; exact hm, hf.slots, hf.ctype⟩
+      · rename_i hnt
+        injection h with h; injection h with h1 _; subst h1
+        exact ⟨hf.fid, hf.creator, fun x hx => by cases hx; exact ⟨hm, hnt⟩, hf.slots, hf.ctype, hf.hdr⟩
       · split at h
         · injection h with h; injection h with h1 _; subst h1
-          exact ⟨hf.fid, hf.creator, hf.tscorr, hf.slots, hf.ctype⟩
+          exact ⟨hf.fid, hf.creator, hf.tscorr, hf.slots, hf.ctype, hf.hdr⟩
         · split at h
           · injection h with h; injection h with h1 _; subst h1
-            exact ⟨hf.fid, hf.creator, hf.tscorr, hf.slots, hf.ctype⟩
+            exact ⟨hf.fid, hf.creator, hf.tscorr, hf.slots, hf.ctype, hf.hdr⟩
           · cases hc : f.cidx with
             | none => rw [hc] at h; cases h
             | some ci =>
               rw [hc] at h
               simp only at h
               injection h with h; injection h with h1 _; subst h1
-              refine ⟨hf.fid, hf.creator, hf.tscorr, ?_, ?_⟩
+              refine ⟨hf.fid, hf.creator, hf.tscorr, ?_, ?_, hf.hdr⟩
               rotate_left
               · intro i hi
                 simp only at hi
